@@ -222,7 +222,7 @@ pub fn regressions() -> Vec<Case> {
 }
 
 pub fn run(ctx: &Ctx) {
-    ctx.rule("lines (and 2-line programs storing a value in a variable) from the generators of C02, C03, C05, C06, C09-C14 kept as token lists with tagged numeric literals x ordered pairs of the four reading conventions (',' '.', '.' ',', '.' '', ',' ''); plus user-defined unit families whose conversion codes hold fractional constants (2.5, 16.5, 0.25, 1000.5), registered before or after the separator setters, converted along the chain under all four conventions (expected: amount x or / factor per link); oracle (metamorphic): the line rendered for convention A and evaluated under A, and rendered for B and evaluated under B, give bit-identical AST values (same kind, same f64, same unit/currency/zone), the same results on ONE calculator that is re-configured through the setters between the evaluations (A: L_A, B: L_A unasserted, B: L_B, A: L_B unasserted, A: L_A), and every plain literal evaluated alone under its convention denotes the number the generator started from; non-trivial = the line evaluates, contains a literal with a fraction or a thousands group AND a computation that re-enters the tokenizer or divides (unit conversion, currency conversion, '/')");
+    ctx.rule("lines (and 2-line programs storing a value in a variable) from the generators of C02, C03, C05, C06, C09-C14 kept as token lists with tagged numeric literals x ordered pairs of the four reading conventions (',' '.', '.' ',', '.' '', ',' ''); plus user-defined unit families whose conversion codes hold fractional constants (2.5, 16.5, 0.25, 1000.5), registered before or after the separator setters, converted along the chain under all four conventions (expected: amount x or / factor per link); the printed forms of one and the same number / percentage / quantity under the two conventions differ in the separators only (also under three non-default number formats); on the re-configured calculator every other case reads each text first under the OTHER convention; oracle (metamorphic): the line rendered for convention A and evaluated under A, and rendered for B and evaluated under B, give bit-identical AST values (same kind, same f64, same unit/currency/zone), the same results on ONE calculator that is re-configured through the setters between the evaluations (A: L_A, B: L_A unasserted, B: L_B, A: L_B unasserted, A: L_A), and every plain literal evaluated alone under its convention denotes the number the generator started from; non-trivial = the line evaluates, contains a literal with a fraction or a thousands group AND a computation that re-enters the tokenizer or divides (unit conversion, currency conversion, '/')");
     ctx.assume("a literal is always rendered for the convention it is evaluated under; a comma glued to the day of 'Mon d, y' is punctuation, not part of the literal, under every convention");
     ctx.run_table(&Separators, "regressions", regressions(), false);
     ctx.run_generated(&Separators, ctx.tier.pick(40_000, 600_000), case_strategy);
